@@ -87,6 +87,11 @@ def run_cli(root, project_file="proj.md", extra_cli=None, env=None, timeout=300,
     e["FORD_DEBUGGING"] = "1"
     e["PYTHONDONTWRITEBYTECODE"] = "1"
     e.update(env or {})
+    if os.environ.get("VF_REACH"):
+        audit = os.path.join(core.VERIF, "vf", "audit_site")
+        if audit not in e["PYTHONPATH"].split(":"):
+            e["PYTHONPATH"] = audit + ":" + e["PYTHONPATH"]
+        e["VF_REACH_REPO"] = core.REPO
     try:
         p = subprocess.run([core.PY, "-B", "-m", "ford", project_file] + list(extra_cli or []), cwd=cwd or root, env=e, capture_output=True, text=True, timeout=timeout)
         return {"rc": p.returncode, "stdout": p.stdout[-6000:], "stderr": p.stderr[-6000:]}
